@@ -21,7 +21,7 @@ func isAPI(fn *ssa.Function) bool {
 	if fn.Parent() != nil || fn.Synthetic != "" {
 		return false
 	}
-	if !ast.IsExported(fn.Name()) {
+	if !ast.IsExported(an.RefFuncName(fn)) {
 		return false
 	}
 	if recv := fn.Signature.Recv(); recv != nil {
